@@ -1,0 +1,5 @@
+//go:build !verif
+
+package circuitbreaker
+
+func vgate(string) {}
